@@ -52,6 +52,7 @@ ChainsOver(S, d) ==
 NoExtra == {}
 StrOnly == {L("str")}
 StrAndNamed == {L("str"), Named}
+OneMapped == {Mapped("PathBuf", "PathBuf", "string")}
 
 CaseSpace == Chains(MaxDepth) \cup (IF WithPairs THEN Pairs ELSE {})
              \cup (IF ExtraLeaves = {} THEN {} ELSE ChainsOver(ExtraLeaves, MaxDepth + 1))
